@@ -456,6 +456,7 @@ def run_check(
     reported: set[tuple[str, str, str]] = set()
     violations_reported = 0
     known_printed: set[str] = set()
+    unconfirmed = 0
     for plan, v in found:
         sig = tuple(v["signature"])
         if sig in reported:
@@ -466,8 +467,9 @@ def run_check(
         try:
             best = minimise(world, prop, cfg, v["values"], sig)  # type: ignore[arg-type]
         except RuntimeError as e:
-            print(f"HARNESS-ERROR property={prop} non-reproducible violation {sig}: {e}", flush=True)
-            exit_code = max(exit_code, 2)
+            print(f"UNCONFIRMED property={prop} violation {sig} at run {v['idx']}: {e}", flush=True)
+            print(f"  {v['detail']}", flush=True)
+            unconfirmed += 1
             continue
         k = match_known(known, sig, best.detail)  # type: ignore[arg-type]
         if k is not None:
@@ -484,9 +486,15 @@ def run_check(
             violations_reported += 1
             exit_code = max(exit_code, 1)
         else:
-            print(f"HARNESS-ERROR property={prop} violation {sig} did not reproduce in a fresh interpreter: {path}", flush=True)
-            exit_code = max(exit_code, 2)
+            print(f"UNCONFIRMED property={prop} violation {sig} did not reproduce in a fresh interpreter: {path}", flush=True)
+            print(f"  {best.detail}", flush=True)
+            unconfirmed += 1
 
+    if unconfirmed and violations_reported == 0:
+        # something failed in a worker and not on replay: a source of nondeterminism outside the
+        # seams (heap layout, ...). Not believed as a violation, not waved through either.
+        print(f"HARNESS-ERROR property={prop} {unconfirmed} violation(s) seen in the batch did not replay", flush=True)
+        exit_code = max(exit_code, 2)
     # known findings are also announced when their probe ran (deterministic probes
     # placed by worlds print through ctx.probes 'known:<id>')
     total_runs = sum(a.runs for a in agg.values())
